@@ -56,7 +56,7 @@ class C12(CheckBase):
         self.schemas.append((ks["name"], pm.emit_express(ks)))
         with open(os.path.join(os.path.dirname(os.path.dirname(os.path.abspath(__file__))), "simlib", "data", "algo_sink.exp")) as f:
             self.schemas.append(("algo_sink", f.read()))      # two schemas, functions/procedures/rules, renamed USE/REFERENCE
-        for sd in pw.schema_defs(seed, tier, 2 if tier == "quick" else 10, label="c12")[1:]:
+        for sd in pw.schema_defs(seed, tier, 2 if tier == "quick" else 10, label="c12", imported=False)[1:]:
             self.schemas.append((sd["name"], pm.emit_express(sd)))
         from simlib import exprgen
         for k in range(3 if tier == "quick" else 12):
